@@ -1221,6 +1221,9 @@ func (w *world) collect(ev *evCtx) error {
 		}
 		o := w.runningRec(rs)
 		if o == nil {
+			for _, q := range w.ops {
+				fmt.Println("DEBUG", q, q.running, m)
+			}
 			return w.errf("store %d received a command for region %d which has no running operator", d.store, v.ID)
 		}
 		n := o.nextSeen(v)
